@@ -293,9 +293,10 @@ func (k *c14run) check(o obs, want *cond, slug, variant string) {
 		"server_flags": k.srv.args, "state": slug, "variant": variant, "setup": append([]obs{}, k.steps...),
 		"request": o.Req, "observed": o, "required": condName,
 	}
-	if o.TransportErr != "" && want != nil && (o.Transport == "client" || o.Transport == "grpc") && o.TransportErr != "Unavailable" {
+	if o.TransportErr != "" && want != nil && o.TransportErr != "Unavailable" {
 		// the server is up and answered the set-up requests: the required condition reached the caller as a
-		// bare transport status, its specific code is lost (Unavailable = connection trouble: not judged)
+		// bare transport status (gRPC status / HTTP error status of the gateway), its specific code is lost
+		// (Unavailable = connection trouble: not judged)
 		k.res.Count("observed-code:" + o.Transport + ":" + o.Rpc + ":transport:" + o.TransportErr)
 		k.res.Find(common.Finding{Kind: "violation", Property: "C14",
 			Signature: fmt.Sprintf("stack:code:%s:%s:%s:transport-status", o.Transport, o.Rpc, slug),
